@@ -284,3 +284,8 @@ def run(chk, repo):
     from rules.shared import kwname
     chk.clauses.append('C19.kw (shared R-THREAD) parameters handed on as keyword arguments keep their name: no `a=b` between two parameters of one function')
     kwname(chk, repo, 'C19.kw', ['aa.VariantPeptidePool', 'cli.filter_fasta'], floor=0)
+    from rules.shared import options_live
+    chk.clauses.append('C19.j (shared R-OPTION) every option filterFasta itself defines is read by its code: none silently falls back to a library default')
+    options_live(chk, repo, 'C19.j', 'cli.filter_fasta:add_subparser_filter_fasta', 'cli.filter_fasta:filter_fasta', ('cli.filter_fasta', 'cli.common'), floor=10)
+
+
